@@ -69,6 +69,10 @@ impl WriteEncoded for TriviaPiece {
                 comment.fmt_to::<E>(writer)?;
                 write!(writer, "*/")?;
             }
+            UnterminatedBlockComment(comment) => {
+                write!(writer, "/*")?;
+                comment.fmt_to::<E>(writer)?;
+            }
             Spaces(n) => write!(writer, "{}", " ".repeat(*n))?,
             NonBreakingSpaces(n) => write!(writer, "{}", "\u{A0}".repeat(*n))?,
         }
